@@ -30,19 +30,28 @@ def one_run(case, prefix, ncache, consume, midcache=0):
     if case["hasact"]:
         a_m.setActive(tuple(case["act"]))
     files = {}
+    # (for ftrace) what a plain walk of the occupancy visits, taken before collection starts
+    pre_visits = [[int(m), [int(k) for k, _ in a_k.iterOccupancy(tick=False)]] for m, a_k in a_m.iterOccupancy(tick=False) if isinstance(a_k, Fiber)] \
+        if case["omode"] == "ftrace" else []
     try:
         Metrics.beginCollect(prefix)
         if w:
             Metrics.associateShape("M", (case["shape"] // w + 1, w))
         if ncache:
             Metrics.setNumCachedUses(ncache)
-        for r in ("M", "K"):
+        for r in (("K",) if case.get("only_inner") else ("M", "K")):
             Metrics.trace(r, type_="iter")
             if consume:
                 Metrics.trace(r, type_="iter", consumable=True)
             files[(r, "iter")] = f"{prefix}-{r}-iter.csv"
+        if case["omode"] == "ftrace":
+            # no loop nest at all: the sub-tree is traced explicitly with Fiber.trace() (trace type "iter"), after both ranks were registered
+            out["visits"] = pre_visits
+            Metrics.registerRank("M")
+            Metrics.registerRank("K")
+            a_m.trace("iter")
         lo, hi, st = case["lo"], case["hi"], case["step"]
-        it = {"occ": lambda: a_m.iterOccupancy(), "default": lambda: a_m, "fmtU": lambda: a_m, "range": lambda: a_m.iterRange(lo, hi), "active": lambda: a_m.iterActive(),
+        it = {"ftrace": lambda: [], "occ": lambda: a_m.iterOccupancy(), "default": lambda: a_m, "fmtU": lambda: a_m, "range": lambda: a_m.iterRange(lo, hi), "active": lambda: a_m.iterActive(),
               "shape": lambda: a_m.iterShape(), "rangeshape": lambda: a_m.iterRangeShape(lo, hi, st), "activeshape": lambda: a_m.iterActiveShape(),
               "shaperef": lambda: a_m.iterShapeRef()}[case["omode"]]()
         nvis = 0
